@@ -41,7 +41,7 @@ PP_CONFIGS = [
     {"align_values": True},
     {"separate_complex_types": True},  # may reorder its argument: purity is not asserted for this one, history independence is
 ]
-VERSIONS = [None, 6.0, 7.0, 7.6, 8.0, 8.2]
+VERSIONS = [None, 6.0, 7.0, 7.6, 8.0, 8.2, 7.58, 7.62]  # the last two: versions between releases, one either side of the 7.6 bounds
 DEP_MODULES = ["lark.lexer", "lark.parsers.lalr_parser", "lark.parsers.lalr_interactive_parser",
                "lark.parsers.lalr_parser_state", "jsonref", "jsonschema.validators", "jsonschema._keywords"]
 SMALL_SCHEMAS = ["style", "label", "scalebar", "legend", "web", "querymap", "reference", "cluster", "leader", "class"]
@@ -65,7 +65,7 @@ class C12(core.Check):
     rule = (
         "one evaluation = one seeded run of one world. W1/W1F: a history of 5-40 operations (load via "
         "parse/parse_file/load with comments/positions/includes toggled, pprint under 5 option sets, validate at "
-        "6 versions, schema export) on long-lived worker objects over 2-6 documents (corpus files <= 4 KB, "
+        "8 versions, schema export) on long-lived worker objects over 2-6 documents (corpus files <= 4 KB, "
         "schema-generated documents with comments, syntactically broken variants, include trees with missing / "
         "too-deep includes), each result compared with brand-new objects; W1F adds 1-3 I/O faults keyed by the "
         "k-th matching open/read. W2: 2-4 (thorough: up to 16) real threads x 1-4 module-level calls (loads, "
